@@ -103,7 +103,7 @@ def step (s : S) (toks : List String) : S × String :=
       match EArray.init nrec.toNat! r m0 with
       | (none, m') => ({ s with m := m', ea := none }, s!"fail rf={rf m0 m'} | {l2c m0 m'}")
       | (some a, m') =>
-        let a := poke a 0 (patBytes seed.toNat! a.size)
+        let a := (EArray.fillFrom a 0 (patBytes seed.toNat! a.size)).getD a
         ({ s with m := m', ea := some a }, s!"{eaL1 "ok" a m0 m'} | {l2c m0 m'}")
   | op :: args =>
     if op.startsWith "ea_" then
@@ -117,7 +117,7 @@ def step (s : S) (toks : List String) : S × String :=
           | some r =>
             match EArray.resizeRec a nrec.toNat! r m with
             | (true, a', m') =>
-              let a' := if a'.size > a.size then poke a' a.size (patBytes seed.toNat! (a'.size - a.size)) else a'
+              let a' := (EArray.fillFrom a' a.size (patBytes seed.toNat! (a'.size - a.size))).getD a'
               ({ s with m := m', ea := some a' }, s!"{eaL1 "ok" a' m m'} | {l2c m m'}")
             | (false, a', m') => ({ s with m := m', ea := some a' }, s!"{eaL1 "fail" a' m m'} | {l2c m m'}")
         | "ea_append", [nrec, reclen, seed] =>
